@@ -29,10 +29,25 @@ def run(ctx):
     ctx.assumptions += ["the event stream with accessor values is read by the harness through the public node API only",
                         "first word of an info string = split on Unicode white space, as strings.Fields does",
                         "inside raw HTML under a tag filter only 'equal up to < -> &lt;' is required (which < is C17's business)"]
-    tracefam.run(ctx, "Render", gen, regen, CONSTS, nsh=16, workers=1, parallel=16)
+    # direction A: the composed model (Full.tla) gives the expected HTML of every generated document under soft breaks as spaces,
+    # hardened soft breaks and IgnoreRaw (the default configuration is compared by C06)
+    from checks import fullfam
+    fullfam.run_oracle(ctx, part="cfg")
+    full_cands = list(ctx.candidates)
+    ctx.candidates = []
+    tracefam.run(ctx, "Render", gen, regen, CONSTS, nsh=16, workers=1, parallel=16, finish=False)
+    confirmed = ctx.keep_confirmed_batch(ctx.candidates, tracefam.batch_confirmer(ctx, "Render", regen, CONSTS))
+    ctx.candidates = full_cands + confirmed
+    ctx.finish()
 
 
 def replay(ctx, path):
+    import json
+    if json.load(open(path))["record"].get("kind") == "full":
+        import vlib
+        from checks.common import replay_with
+        vlib.GOENV["VERIF_FULL_PART"] = "cfg"
+        return replay_with(ctx, "full", path)
     tracefam.replay(ctx, "Render", regen, CONSTS, path)
 
 
